@@ -45,7 +45,7 @@ def _cases(draw):
         sched = draw(st.lists(st.integers(0, 11), max_size=120))
     delays = draw(st.lists(st.integers(0, 6), min_size=1, max_size=4))
     return {"n": n, "par": par, "max_tasks": mt, "fail": fails, "unpicklable": unp, "tolerate": tol, "use_run": use_run,
-            "schedule": sched, "delays": delays}
+            "schedule": sched, "delays": delays, "fail_kind": draw(st.integers(0, 4))}
 
 
 def strategy(tier):
@@ -117,7 +117,8 @@ def check(case):
     if case.get("real"):
         return _check_real(case)
     out = run_case(case["n"], case["par"], case["max_tasks"], case["fail"], case["tolerate"],
-                   case["schedule"], case["delays"], use_run=case["use_run"], unpicklable_ids=case.get("unpicklable", ()))
+                   case["schedule"], case["delays"], use_run=case["use_run"], unpicklable_ids=case.get("unpicklable", ()),
+                   fail_kind=case.get("fail_kind", 0))
     if case.get("unpicklable"):
         labels_extra = ["unpicklable-result"]
     else:
@@ -145,7 +146,8 @@ def _task(x, delay, fails):
     if delay:
         time.sleep(delay)
     if x in fails:
-        raise ValueError("boom-%s" % x)
+        from vf.model.poolsim import task_error
+        raise task_error(x, x)   # (id 1 fails in the grid below: a two-argument FileNotFoundError)
     return x * 2 + 1
 
 
